@@ -88,6 +88,10 @@ pub fn replay(path: &str) -> i32 {
         Some("net-history") => lifecycle_net::replay_net(scn),
         Some("c07-handshake") => lifecycle_net::replay_hs(scn),
         Some("c07-backlog") => framing::c07_backlog_phase().violations_as_pairs(),
+        Some("c13-zero-delay") => {
+            crate::sim::enter_thread_runtime();
+            client_sm::c13_zero_delay_phase().violations_as_pairs()
+        }
         Some("client-session") => client_sm::replay_session(scn),
         Some("client-sm") => client_sm::replay(scn),
         Some("client-tie") => client_sm::replay_tie(scn),
